@@ -163,41 +163,49 @@ def weightsOf : List Bytes → Option (List Int)
     | some v, some ws => if v < 0 then none else some (v :: ws)
     | _, _ => none
 
+/-- result of a loop / step: a value, an error returned by the code, or the model's fuel ran out -/
+inductive Lr (σ : Type) where
+  | ok (v : σ)
+  | err
+  | fuel
+deriving DecidableEq, Repr
+
 /-- state of the `for d.NextBlock(0)` loops of query / header / cookie -/
 structure BlkState where
   fb : Option PolCfg
   maxAge : Int
 deriving DecidableEq, Repr
 
-/-- `for d.NextBlock(0) { switch d.Val() { … } }`; `none` = an error is returned;
+/-- `for d.NextBlock(0) { switch d.Val() { … } }`; `err` = an error is returned;
     `cookie`: is `max_age` a known option? `loadFallback` = `UnmarshalModule` on a segment; the first
     number bounds the iterations -/
 def blockLoop (dur : Bytes → Option Int) (cookie : Bool) (loadFallback : List Tok → CfRes) :
-    Nat → Disp → BlkState → Option BlkState
-  | 0, _, st => some st
+    Nat → Disp → BlkState → Lr BlkState
+  | 0, _, _ => .fuel
   | n + 1, d, st =>
     if (d.nextBlock 0).1 then
       if (d.nextBlock 0).2.val = str "fallback" then
         if (d.nextBlock 0).2.nextArg.1 then
-          if st.fb.isSome then none   -- fallback selection policy already specified
+          if st.fb.isSome then .err   -- fallback selection policy already specified
           else
             -- loadFallbackPolicy: UnmarshalModule on the next segment
             match loadFallback (nextSegment (d.nextBlock 0).2.nextArg.2).1 with
             | .ok p => blockLoop dur cookie loadFallback n (nextSegment (d.nextBlock 0).2.nextArg.2).2 { st with fb := some p }
-            | _ => none
-        else none
+            | .err => .err
+            | .fuel => .fuel
+        else .err
       else if cookie ∧ (d.nextBlock 0).2.val = str "max_age" then
         if (d.nextBlock 0).2.nextArg.1 then
-          if st.maxAge ≠ 0 then none   -- cookie max_age already specified
+          if st.maxAge ≠ 0 then .err   -- cookie max_age already specified
           else match dur (d.nextBlock 0).2.nextArg.2.val with
-            | none => none
+            | none => .err
             | some v =>
-              if v ≤ 0 then none
-              else if (d.nextBlock 0).2.nextArg.2.nextArg.1 then none
+              if v ≤ 0 then .err
+              else if (d.nextBlock 0).2.nextArg.2.nextArg.1 then .err
               else blockLoop dur cookie loadFallback n (d.nextBlock 0).2.nextArg.2.nextArg.2 { st with maxAge := v }
-        else none
-      else none   -- unrecognized option
-    else some st
+        else .err
+      else .err   -- unrecognized option
+    else .ok st
 /-- `UnmarshalModule(d, "…selection_policies."+name)` on the tokens of a segment -/
 def parseSel (dur : Bytes → Option Int) : Nat → List Tok → CfRes
   | 0, _ => .fuel
@@ -226,26 +234,30 @@ def parseSel (dur : Bytes → Option Int) : Nat → List Tok → CfRes
         else if t0.text = str "query" ∨ t0.text = str "header" then
           if ((Disp.mk seg 0 0).next.2).nextArg.1 then
             match blockLoop dur false (parseSel dur fuel) (seg.length + 2) ((Disp.mk seg 0 0).next.2).nextArg.2 ⟨none, 0⟩ with
-            | some st =>
+            | .ok st =>
               if t0.text = str "query" then .ok (.query ((Disp.mk seg 0 0).next.2).nextArg.2.val :: st.fb.getD [])
               else .ok (.header ((Disp.mk seg 0 0).next.2).nextArg.2.val :: st.fb.getD [])
-            | none => .err
+            | .err => .err
+            | .fuel => .fuel
           else .err
         else if t0.text = str "cookie" then
           -- args := d.RemainingArgs() on the fresh dispenser: the policy name is args[0]
           match (remainingArgs (seg.length + 2) (Disp.mk seg 0 0)).1 with
           | [_] =>
             (match blockLoop dur true (parseSel dur fuel) (seg.length + 2) (remainingArgs (seg.length + 2) (Disp.mk seg 0 0)).2 ⟨none, 0⟩ with
-              | some st => .ok (.cookie [] [] st.maxAge :: st.fb.getD [])
-              | none => .err)
+              | .ok st => .ok (.cookie [] [] st.maxAge :: st.fb.getD [])
+              | .err => .err
+              | .fuel => .fuel)
           | [_, n] =>
             (match blockLoop dur true (parseSel dur fuel) (seg.length + 2) (remainingArgs (seg.length + 2) (Disp.mk seg 0 0)).2 ⟨none, 0⟩ with
-              | some st => .ok (.cookie n [] st.maxAge :: st.fb.getD [])
-              | none => .err)
+              | .ok st => .ok (.cookie n [] st.maxAge :: st.fb.getD [])
+              | .err => .err
+              | .fuel => .fuel)
           | [_, n, s] =>
             (match blockLoop dur true (parseSel dur fuel) (seg.length + 2) (remainingArgs (seg.length + 2) (Disp.mk seg 0 0)).2 ⟨none, 0⟩ with
-              | some st => .ok (.cookie n s st.maxAge :: st.fb.getD [])
-              | none => .err)
+              | .ok st => .ok (.cookie n s st.maxAge :: st.fb.getD [])
+              | .err => .err
+              | .fuel => .fuel)
           | _ => .err
         else .err   -- no such module
 
@@ -287,72 +299,74 @@ def appendUps (addr : Bytes → Option (List Bytes)) : List Bytes → List Bytes
 
 /-- one iteration of the block loop, the dispenser standing on the subdirective's name;
     `none` = an error is returned -/
-def rpStep (dur : Bytes → Option Int) (addr : Bytes → Option (List Bytes)) (d : Disp) (st : RpCfg) : Option (Disp × RpCfg) :=
+def rpStep (dur : Bytes → Option Int) (addr : Bytes → Option (List Bytes)) (d : Disp) (st : RpCfg) : Lr (Disp × RpCfg) :=
   if d.val = str "to" then
     match (remainingArgs (d.toks.length + 2) d).1 with
-    | [] => none
+    | [] => .err
     | args => match appendUps addr args st.ups with
-      | some ups => some ((remainingArgs (d.toks.length + 2) d).2, { st with ups := ups })
-      | none => none
+      | some ups => .ok ((remainingArgs (d.toks.length + 2) d).2, { st with ups := ups })
+      | none => .err
   else if d.val = str "lb_policy" then
     if d.nextArg.1 then
-      if st.pol.isSome then none   -- load balancing selection policy already specified
+      if st.pol.isSome then .err   -- load balancing selection policy already specified
       else match parseSel dur (2 * d.toks.length + 4) (nextSegment d.nextArg.2).1 with
-        | .ok p => some ((nextSegment d.nextArg.2).2, { st with pol := some p })
-        | _ => none
-    else none
+        | .ok p => .ok ((nextSegment d.nextArg.2).2, { st with pol := some p })
+        | .err => .err
+        | .fuel => .fuel
+    else .err
   else if d.val = str "lb_retries" then
     if d.nextArg.1 then
       match C16.atoi d.nextArg.2.val with
-      | some v => some (d.nextArg.2, { st with retries := v })
-      | none => none
-    else none
+      | some v => .ok (d.nextArg.2, { st with retries := v })
+      | none => .err
+    else .err
   else if d.val = str "lb_try_duration" then
     if d.nextArg.1 then
       match dur d.nextArg.2.val with
-      | some v => some (d.nextArg.2, { st with tryDur := v })
-      | none => none
-    else none
+      | some v => .ok (d.nextArg.2, { st with tryDur := v })
+      | none => .err
+    else .err
   else if d.val = str "lb_try_interval" then
     if d.nextArg.1 then
       match dur d.nextArg.2.val with
-      | some v => some (d.nextArg.2, { st with tryInt := v })
-      | none => none
-    else none
+      | some v => .ok (d.nextArg.2, { st with tryInt := v })
+      | none => .err
+    else .err
   else if d.val = str "max_fails" then
     if d.nextArg.1 then
       match C16.atoi d.nextArg.2.val with
-      | some v => some (d.nextArg.2, { st with passive := true, maxFails := v })
-      | none => none
-    else none
+      | some v => .ok (d.nextArg.2, { st with passive := true, maxFails := v })
+      | none => .err
+    else .err
   else if d.val = str "fail_duration" then
     if d.nextArg.1 then
       match dur d.nextArg.2.val with
-      | some v => some (d.nextArg.2, { st with passive := true, failDur := v })
-      | none => none
-    else none
+      | some v => .ok (d.nextArg.2, { st with passive := true, failDur := v })
+      | none => .err
+    else .err
   else if d.val = str "unhealthy_request_count" then
     if d.nextArg.1 then
       match C16.atoi d.nextArg.2.val with
-      | some v => some (d.nextArg.2, { st with passive := true, urc := v })
-      | none => none
-    else none
-  else none   -- unrecognized subdirective (or one outside this model)
+      | some v => .ok (d.nextArg.2, { st with passive := true, urc := v })
+      | none => .err
+    else .err
+  else .err   -- unrecognized subdirective (or one outside this model)
 
 /-- `for d.NextBlock(0) { … }` -/
-def rpLoop (dur : Bytes → Option Int) (addr : Bytes → Option (List Bytes)) : Nat → Disp → RpCfg → Option RpCfg
-  | 0, _, st => some st
+def rpLoop (dur : Bytes → Option Int) (addr : Bytes → Option (List Bytes)) : Nat → Disp → RpCfg → Lr RpCfg
+  | 0, _, _ => .fuel
   | n + 1, d, st =>
     if (d.nextBlock 0).1 then
       match rpStep dur addr (d.nextBlock 0).2 st with
-      | some (d', st') => rpLoop dur addr n d' st'
-      | none => none
-    else some st
+      | .ok (d', st') => rpLoop dur addr n d' st'
+      | .err => .err
+      | .fuel => .fuel
+    else .ok st
 
 /-- `Handler.UnmarshalCaddyfile` on the tokens of the directive (the first is `reverse_proxy`) -/
-def parseReverseProxy (dur : Bytes → Option Int) (addr : Bytes → Option (List Bytes)) (toks : List Tok) : Option RpCfg :=
+def parseReverseProxy (dur : Bytes → Option Int) (addr : Bytes → Option (List Bytes)) (toks : List Tok) : Lr RpCfg :=
   match appendUps addr (remainingArgs (toks.length + 2) (Disp.mk toks 0 0).next.2).1 [] with
   | some ups => rpLoop dur addr (toks.length + 2) (remainingArgs (toks.length + 2) (Disp.mk toks 0 0).next.2).2 { RpCfg.empty with ups := ups }
-  | none => none
+  | none => .err
 
 end CaddyModel.C08
